@@ -15,6 +15,8 @@ macro_rules! with_check {
         match $id {
             "C01" => $f::<props::c01::C01>($($arg),*),
             "C02" => $f::<props::c02::C02>($($arg),*),
+            "C03" => $f::<props::c03::C03>($($arg),*),
+            "C04" => $f::<props::c03::C04>($($arg),*),
             "C05" => $f::<props::c05::C05>($($arg),*),
             "C06" => $f::<props::c06::C06>($($arg),*),
             "C09" => $f::<props::c09::C09>($($arg),*),
@@ -207,6 +209,9 @@ fn orchestrate<C: Check>(tier: Tier) -> i32 {
     }
     let _ = std::fs::remove_dir_all(&tmp);
     let m = runner::merge(outs);
+    for i in &m.infra {
+        inconclusive.push(i.clone());
+    }
     violations.extend(m.violations.iter().cloned());
     let mut known_ids = std::collections::BTreeMap::new();
     for (id, msg) in &m.known {
